@@ -189,21 +189,21 @@ def main(argv=None):
     broken: list[dict] = []
 
     # 1. translate
-    reports = translate.translate()
+    theorems = list(prop.THEOREMS)
+    module = f"Verif.Props.{prop_id}"
+    b = core.build(module, pre=translate.translate, audit_of=(prop_id, theorems))
+    reports = b.pre or {}
     for name in getattr(prop, "GEN", []):
         for u in reports.get(name, {}).get("untranslatable", []):
             broken.append({"kind": "translator", "name": f"Gen/{name}.lean", "detail": u})
 
-    # 2. build + audit
-    theorems = list(prop.THEOREMS)
-    module = f"Verif.Props.{prop_id}"
-    b = core.build(module)
+    # 2. audit
     audit_res = {}
     if not b.driver_ok:
         ctx.model_available = False
         broken.append({"kind": "correspondence", "name": "verif-driver", "detail": "driver does not build: " + b.log[-400:]})
     if b.ok:
-        audit_res = core.audit(prop_id, theorems)
+        audit_res = b.audit
         for t, r in audit_res.items():
             if not r["ok"]:
                 broken.append({"kind": "theorem", "name": t, "detail": r["why"]})
